@@ -130,7 +130,7 @@ class C01(Check):
     base_profile = {"amo_p": 0.1}
 
     def oracle(self, ix, cfg, golden):
-        return oracles.check_c01(ix)
+        return oracles.check_c01(ix) + oracles.check_unexplained_exceptions(ix, cfg, "C01")
 
     def nontrivial(self, w, ix, cfg):
         return replayed_terminal(w) > 0
@@ -161,7 +161,7 @@ class C02(Check):
     base_profile = {"amo_p": 0.0, "early_exit": False, "rich": True}
 
     def oracle(self, ix, cfg, golden):
-        vs = oracles.check_c02(ix)
+        vs = oracles.check_c02(ix) + oracles.check_unexplained_exceptions(ix, cfg, "C02")
         if cfg.get("faults"):
             if golden is None:
                 from dexsim.driver import run_execution
@@ -892,9 +892,10 @@ class C09(Check):
         program = {"body": body}
         ext = {}
         gen.assign_externals(body, "r", ext)
-        for pos_ in _positions_of(program, "callback"):
-            ext[pos_] = {"outcome": rng.choice(["succeed", "succeed", "fail"]), "delay": rng.choice([0.05, 0.5, 3, 40]),
-                         "payload": "cb", "message": "cb failed", "etype": "ExtErr"}
+        for pos_, st_ in oracles.statements(program).items():
+            if st_["op"] == "callback":
+                st_["ext"] = {"outcome": rng.choice(["succeed", "succeed", "fail"]), "delay": rng.choice([0.05, 0.5, 3, 40]),
+                              "payload": "cb", "message": "cb failed", "etype": "ExtErr"}
         sched = gen.gen_sched(random.Random(H(seed_i, "sched")), prof)
         knobs = gen.gen_knobs(random.Random(H(seed_i, "knobs")), prof)
         knobs["latency"] = rng.choice([[0.001, 0.002], [0.001, 0.05], [0.01, 0.3]])
@@ -1061,6 +1062,28 @@ class C17(Check):
         if rng.random() < 0.5:
             cfg["first_page"] = rng.choice([1, 1, 2, 3])
             cfg["state_page"] = rng.choice([1, 2, 1000])
+        if rng.random() < 0.25:
+            # a map/parallel unit whose result is recorded as a summary (ReplayChildren), with failed / unfinished
+            # branches: its replay re-traverses only the succeeded branches
+            nb = rng.randrange(2, 5)
+            brs = []
+            for _ in range(nb):
+                k = rng.choice(["ok", "ok", "fail", "wait"])
+                if k == "ok":
+                    brs.append({"body": [{"op": "step"}], "ret": ["big", rng.choice([30, 120])]})
+                elif k == "fail":
+                    brs.append({"body": [{"op": "step"}, {"op": "raise", "cls": "ValueError", "msg": "bad"}]})
+                else:
+                    brs.append({"body": [{"op": "step"}, {"op": "wait", "s": rng.choice([1, 3600])}]})
+            st = {"op": "parallel", "branches": brs, "cfg": {"tol": nb, "min": rng.choice([None, 1, nb])}}
+            if st["cfg"]["min"] is None:
+                del st["cfg"]["min"]
+            body = cfg["program"]["body"]
+            body.insert(rng.randrange(len(body) + 1), {"op": "try", "stmt": st, "catch": ["CallableRuntimeError"], "handler": []})
+            body.append({"op": "wait", "s": 2})
+            body.append({"op": "log"})
+            body.append({"op": "step", "fn": {"attempts": [{"do": "ret", "v": ["int", 1]}], "log": True}})
+            cfg["limits"] = {"ckpt": rng.choice([40, 100]), "resp": 6 * 1024 * 1024 - 50}
 
     def oracle(self, ix, cfg, golden):
         return oracles.check_c17(ix, cfg)
